@@ -258,7 +258,7 @@ func TestVerifC25(t *testing.T) {
 	if out == "" {
 		t.Skip("C25_KFAKE_SUMMARY not set")
 	}
-	balenum.TuneGC(1 << 30)
+	balenum.TuneGC(256 << 20)
 	if pp := os.Getenv("C25_PPROF"); pp != "" {
 		f, _ := os.Create(pp)
 		pprof.StartCPUProfile(f)
